@@ -31,6 +31,7 @@ type PropSpec struct {
 	Explanation string   `json:"explanation,omitempty"`
 	MinObs      int      `json:"min_obligations,omitempty"` // vacuity guard: fewer obligations is an infrastructure error
 	PanicKinds  bool     `json:"panic_kinds,omitempty"`     // also claim the panic-freedom obligations of the tagged functions
+	OnlyKinds   []string `json:"only_kinds,omitempty"`      // restrict the claimed obligations to these kinds
 }
 
 type Harness struct {
@@ -272,7 +273,17 @@ func propMain(args []string, o RunOpts, tier string) int {
 			if !ob.Strong {
 				continue // nil-dereference and type-assertion sites are reported but not claimed
 			}
-			if !sels[i].sweep && !ps.PanicKinds && panicOnlyKinds[ob.Kind] {
+			if len(ps.OnlyKinds) > 0 {
+				keep := false
+				for _, k := range ps.OnlyKinds {
+					if k == ob.Kind {
+						keep = true
+					}
+				}
+				if !keep {
+					continue
+				}
+			} else if !sels[i].sweep && !ps.PanicKinds && panicOnlyKinds[ob.Kind] {
 				continue // panic-freedom of this function is not part of this property's claim
 			}
 			claimed = append(claimed, ob)
